@@ -44,7 +44,11 @@ META = dict(
          "code called from the task (wait_result / gather with a timeout on a sub-task whose result never arrives, a failing "
          "result backend, ctx.reject(), kiq on a shared broker), builtin / asyncio / concurrent.futures exceptions, user "
          "subclasses of all of them (also named like taskiq's classes, with odd __bool__ / __eq__ / __hash__), exception groups, "
-         "exceptions chained to a NoResultError, the same exception object re-used, a bare class; and the no-result signal as "
+         "exceptions chained to a NoResultError, the same exception object re-used, a bare class; in about a fifth of those "
+         "a failure that is a BaseException but not an Exception (asyncio.CancelledError raised or leaking from a cancelled inner "
+         "task / future / gather / wait_for, SystemExit raised or through sys.exit() in library code, KeyboardInterrupt, "
+         "BaseException, user subclasses of them, BaseExceptionGroup; in coroutine functions, pool-thread functions and "
+         "dependencies); and the no-result signal as "
          "NoResultError or a user's subclass of it. Whether an attempt failed or signalled no-result is the case's choice "
          "(never read off taskiq's class hierarchy). "
          "About a tenth of the cases have typed arguments: the task function's parameters are annotated with pydantic models "
@@ -146,11 +150,16 @@ EXC_INFO = dict(
         "TaskBrokerMismatchError", "TaskRejectedError", "TaskiqError", "TaskiqResultTimeoutError", "UnknownTaskError")],
     builtins=["Exception", "ValueError", "KeyError", "RuntimeError", "OSError", "TimeoutError", "asyncio.TimeoutError"],
     real=["wait_result", "wait_result_sent", "gather", "is_ready_raises", "get_result_raises", "reject", "shared_kiq"],
+    base_builtins=["BaseException", "KeyboardInterrupt", "SystemExit", "asyncio.CancelledError"],
+    base_real=["cancelled_task", "cancelled_future", "cancelled_gather", "cancelled_wait_for", "sys_exit"],
     skipped=[], source="static fallback")
 ALSO_BASES = ["ValueError", "RuntimeError", "KeyError", "TimeoutError", "Exception"]
 USER_NAMES = ["UserError", "UserError", "SubTaskTimeout", "NoResultError", "TaskiqResultTimeoutError", "Error"]
 USER_TRAITS = ["falsy", "eq_all", "unhashable"]
 NR_KINDS = ["nr", "nr", "nr_sub", "nr_sub", "nr_subsub"]
+# failures that are BaseExceptions but not Exceptions (Receiver.run_task catches BaseException: they are failed attempts)
+BASE_USER_NAMES = ["Abort", "Abort", "Cancelled", "UserError", "CancelledError", "NoResultError", "WorkerShutdown"]
+BASE_SHARE = .2         # of the generated failure specs
 
 
 def exception_info(ctx, rep):
@@ -167,9 +176,50 @@ def tq_spec(mn):
     return {"k": "taskiq", "mod": mn[0], "name": mn[1]}
 
 
+def spec_is_base(sp):
+    """pure data: does the spec describe a failure that is a BaseException but not an Exception?"""
+    k = sp["k"]
+    if k == "builtin":
+        return sp["name"] in EXC_INFO["base_builtins"]
+    if k == "real":
+        return sp["how"] in EXC_INFO["base_real"]
+    if k == "user":
+        return spec_is_base(sp["base"]) and not sp.get("also")       # every second base on offer is an Exception
+    if k == "group":
+        return any(spec_is_base(m) for m in sp["of"])
+    return False
+
+
+def gen_base_exc(r, depth=0):
+    """a failure that is a BaseException but not an Exception: CancelledError (raised, or leaking from a cancelled inner task /
+    future / gather / wait_for), SystemExit (raised, or sys.exit() in library code), KeyboardInterrupt, BaseException, a user's
+    subclass of one of them (a quarter of those with a second, Exception base: then it IS an Exception again), a
+    BaseExceptionGroup holding at least one of them"""
+    bb = EXC_INFO["base_builtins"]
+    k = r.random()
+    if k < .3:
+        return {"k": "builtin", "name": r.choice(bb + ["asyncio.CancelledError"] * 2)}
+    if k < .55 and not depth:
+        return {"k": "real", "how": r.choice(EXC_INFO["base_real"])}
+    if k < .87 or depth:
+        spec = {"k": "user", "base": {"k": "builtin", "name": r.choice(bb + ["BaseException"] * 2)}, "name": r.choice(BASE_USER_NAMES)}
+        if r.random() < .25:
+            spec["also"] = r.choice(ALSO_BASES)
+        if r.random() < .25:
+            spec["traits"] = sorted(r.sample(USER_TRAITS, r.choice([1, 1, 2])))
+        return spec
+    of = [gen_base_exc(r, depth + 1)] + [gen_exc(r, depth + 1) for _ in range(r.choice([0, 1, 1, 2]))]
+    r.shuffle(of)
+    return {"k": "group", "of": of}
+
+
 def gen_exc(r, depth=0):
     k = r.random()
-    if k < .30:
+    if r.random() < BASE_SHARE:
+        spec = gen_base_exc(r, depth)
+        if spec["k"] == "group":
+            return spec
+    elif k < .30:
         spec = tq_spec(r.choice(EXC_INFO["taskiq_excs"]))
     elif k < .48:
         spec = {"k": "real", "how": r.choice(EXC_INFO["real"])}
@@ -186,7 +236,7 @@ def gen_exc(r, depth=0):
     else:
         return {"k": "group", "of": [gen_exc(r, depth + 1) for _ in range(r.choice([1, 2, 2, 3]))]}
     if depth == 0 and r.random() < .18:
-        spec["chain"] = r.choice(["cause_nr", "context_nr", "cause_other"])
+        spec["chain"] = r.choice(["cause_nr", "context_nr", "cause_other", "cause_base", "context_base"])
     if depth == 0 and spec["k"] != "real" and r.random() < .1:
         spec["reuse"] = True
     if depth == 0 and spec["k"] != "real" and r.random() < .1:
@@ -201,7 +251,7 @@ def gen_exc_list(r):
 def gen_nr(r):
     spec = {"k": r.choice(NR_KINDS)}
     if r.random() < .3:
-        spec["chain"] = r.choice(["cause_fail", "context_fail"])
+        spec["chain"] = r.choice(["cause_fail", "context_fail", "cause_fail", "context_fail", "cause_base", "context_base"])
     if r.random() < .2:
         spec["bare"] = True
     return spec
@@ -256,6 +306,44 @@ def exc_grid():
     add(mk(["F", "F", "F", "S"], ffs["labels"][:1] + [[K("retry_on_error"), {"t": "str", "v": K("TRUE")}]], 1, False, True),
         [{"k": "builtin", "name": "ValueError"}, {"k": "real", "how": EXC_INFO["real"][0]}, tq[len(tq) // 3]])
     add(fff, [{"k": "real", "how": EXC_INFO["real"][-1]}, {"k": "builtin", "name": "KeyError"}], fn="gen_dep")
+    # failures that are BaseExceptions but not Exceptions: each class / each way a CancelledError or SystemExit reaches the body,
+    # on every shape of task function and delivery
+    bnames = EXC_INFO["base_builtins"]
+    shapes = [{}, {"propagate": False}, {"fn": "sync"}, {"via": "listen", "A": None, "ackable": "async"}, {"fn": "gen_dep"},
+              {"fn": "dep_fails", "propagate": False}, {"fn": "agen_dep"}, {"fn": "sync_gen_dep"}, {"fresh": True, "validate": False},
+              {"timeout_label": TIMEOUT_VALUES[0]}, {"mw_before": ["async_err"], "mw_after": ["touch"], "retry_cls": "sub"}]
+    n = 0
+    for name in bnames:
+        sp = {"k": "builtin", "name": name}
+        for base in (ffs, fff, fn_):
+            add(base, sp, **dict(shapes[n % len(shapes)]))
+            n += 1
+        add(ffs, {"k": "user", "base": sp, "name": BASE_USER_NAMES[n % len(BASE_USER_NAMES)]}, **dict(shapes[n % len(shapes)]))
+        add(fff, {"k": "user", "base": sp, "name": "Abort", "traits": [USER_TRAITS[n % len(USER_TRAITS)]]}, **dict(shapes[(n + 3) % len(shapes)]))
+        add(ffs, {"k": "user", "base": sp, "name": "Abort", "also": ALSO_BASES[n % len(ALSO_BASES)]})
+        add(ffs, dict(sp, bare=True), **dict(shapes[(n + 5) % len(shapes)]))
+        n += 1
+    for how in EXC_INFO["base_real"]:
+        sp = {"k": "real", "how": how}
+        for base in (ffs, fff, fn_, ffs):
+            add(base, sp, **dict(shapes[n % len(shapes)]))
+            n += 1
+        add(ffs, sp, fn="sync")             # a plain function cannot await: CancelledError raised in the pool thread
+    cancelled = {"k": "builtin", "name": "asyncio.CancelledError"}
+    add(ffs, {"k": "group", "of": [cancelled]})
+    add(fff, {"k": "group", "of": [{"k": "builtin", "name": "ValueError"}, {"k": "user", "base": {"k": "builtin", "name": "BaseException"}, "name": "Abort"}]},
+        propagate=False)
+    add(fn_, {"k": "group", "of": [tq[0], {"k": "builtin", "name": "KeyboardInterrupt"}]}, fn="sync")
+    for i, ch in enumerate(("cause_base", "context_base")):
+        add(ffs, {"k": "builtin", "name": "ValueError", "chain": ch})
+        add(fff, dict(tq[(7 * i + 2) % len(tq)], chain=ch), fn=("sync", "gen_dep")[i])
+        add(ffs, dict(cancelled, chain=("cause_nr", "context_nr")[i]))
+        add(fn_, {"k": "real", "how": EXC_INFO["base_real"][i], "chain": "cause_other"})
+    add(ffs, dict(cancelled, reuse=True))
+    add(mk(["F", "F", "F", "S"], ffs["labels"][:1] + [[K("retry_on_error"), {"t": "str", "v": K("True")}]], 1, False, False),
+        [{"k": "builtin", "name": "ValueError"}, {"k": "real", "how": EXC_INFO["base_real"][0]}, {"k": "builtin", "name": "SystemExit"}])
+    for nr in ({"k": "nr", "chain": "cause_base"}, {"k": "nr_sub", "chain": "context_base"}):
+        out.append(with_env(fn_, {"nr": nr, "fail_by": "exc", "exc": [cancelled]}))
     # the no-result signal: NoResultError, a user's subclass of it, raised bare / from a failure / while handling one
     for i, nr in enumerate(({"k": "nr"}, {"k": "nr_sub"}, {"k": "nr_subsub"}, {"k": "nr", "bare": True}, {"k": "nr_sub", "chain": "cause_fail"},
                             {"k": "nr", "chain": "context_fail"}, {"k": "nr_subsub", "chain": "context_fail", "bare": True})):
@@ -495,7 +583,7 @@ def exc_label(sp):
     if k in ("taskiq", "builtin"):
         return "%s:%s" % (k, sp["name"])
     if k == "real":
-        return "taskiq-code-path:" + sp["how"]
+        return ("python-code-path:" if sp["how"] in EXC_INFO["base_real"] else "taskiq-code-path:") + sp["how"]
     if k == "user":
         return "user-subclass-of:%s%s" % (exc_label(sp["base"]), "+" + sp["also"] if sp.get("also") else "")
     return "group-of-%d" % len(sp["of"])
@@ -512,8 +600,17 @@ def count_exc(rep, c, o):
     rep.count("exc:cases")
     specs = env["exc"] if isinstance(env["exc"], list) else [env["exc"]]
     rep.count("exc:distinct-failures-in-one-chain=%d" % len(specs))
+    if any(spec_is_base(sp) for sp in specs):
+        rep.count("exc:cases-with-a-failure-that-is-a-BaseException-but-not-an-Exception")
+        rep.count("exc:base-exception-failure:task-function=" + env.get("fn", "async"))
+        rep.count("exc:base-exception-failure:delivery=" + ("listen() session" if env.get("via") == "listen" else "callback"))
     for sp in specs:
         rep.count("exc:failure=" + exc_label(sp))
+        if spec_is_base(sp):
+            rep.count("exc:base-exception-failure(not an Exception)=" + exc_label(sp))
+            for m in (sp["of"] if sp["k"] == "group" else []):
+                if spec_is_base(m):
+                    rep.count("exc:base-exception-group-member=" + exc_label(m))
         if sp["k"] == "user":
             rep.count("exc:user-class-named=" + sp.get("name", "UserError"))
             for t in sp.get("traits", []):
@@ -529,6 +626,8 @@ def count_exc(rep, c, o):
     ex = o.get("execs", [])
     if len(ex) > 1 and any(e["out"] == "F" for e in ex[:-1]):
         rep.count("exc:cases-with-a-re-send-after-such-a-failure")
+        if any(spec_is_base(sp) for sp in specs[:len(ex) - 1]):
+            rep.count("exc:cases-with-a-re-send-after-a-BaseException-failure")
 
 
 def lab(case, name):
